@@ -85,6 +85,10 @@ def world_spec(rng):
         p = b.token.split(".")
         tokens[f"jwe-bad:{name}:{alg}:{enc}"] = ".".join(p[:4] + [("A" if p[4][0] != "A" else "B") + p[4][1:]])
         tokens[f"jwej:{name}:{alg}:{enc}"] = g.make("general", enc, [(alg, keys[name]["jwk"], None)], payload, p2c=1000).token
+        # the same token with a header parameter only a caller-built registry knows ("tenant")
+        tokens[f"jwe-tenant:{name}:{alg}:{enc}"] = g.make("compact", enc, [(alg, keys[name]["jwk"], None)], payload, p2c=1000, extra_protected={"tenant": "t-1"}).token
+    for name, alg in (("hs", "HS256"), ("ec", "ES256")):
+        tokens[f"jws-tenant:{name}:{alg}"] = rjws.compact({"alg": alg, "tenant": "t-1"}, payload, RefKey.from_jwk(keys[name]["jwk"]))
     return {"keys": keys, "tokens": tokens}
 
 
@@ -105,6 +109,10 @@ class World:
             "jwe-all": j.jwe.JWERegistry(algorithms=g.ALGS + g.ENCS + ["DEF"]),
             "jwe-nonstrict": j.jwe.JWERegistry(algorithms=g.RFC_ALGS + g.RFC_ENCS, strict_check_header=False, verify_all_recipients=False),
         }
+        from joserfc.registry import HeaderParameter
+        # registries of a caller who registered a header parameter of its own
+        self.reg["jwe-tenant"] = j.jwe.JWERegistry(header_registry={"tenant": HeaderParameter("Tenant", "str", False)}, algorithms=g.ALGS + g.ENCS + ["DEF"])
+        self.reg["jws-tenant"] = j.jws.JWSRegistry(header_registry={"tenant": HeaderParameter("Tenant", "str", True)}, algorithms=["HS256", "ES256"])
         # shared key sets over key objects of their own (constructing a set assigns kids)
         self.sets = {}
         if names is None or any(n.startswith("set:") for n in names):
@@ -177,6 +185,18 @@ def op_pool(spec):
         ops.append({"k": "verify-shared-set", "alg": alg, "tok": f"jws:{kn}:{alg}", "keys": ["set:sig.pub"]})
     for alg, enc, kn in (("A128KW", "A128GCM", "oct128"), ("ECDH-ES+A256KW", "A256CBC-HS512", "x"), ("RSA-OAEP", "A128CBC-HS256", "rsa")):
         ops.append({"k": "encrypt-shared-set", "alg": alg, "enc": enc, "dec": kn, "keys": ["set:enc"]})
+    # a caller-registered header parameter: known to that caller's registry only
+    for tname in [t for t in spec["tokens"] if t.startswith("jwe-tenant:")]:
+        _, name, alg, enc = tname.split(":")
+        ops.append({"k": "decrypt", "key": name, "alg": alg, "enc": enc, "tok": tname, "via": "key", "reg": "jwe-tenant"})     # accepted
+        ops.append({"k": "decrypt", "key": name, "alg": alg, "enc": enc, "tok": tname, "via": "key", "reg": "jwe-all"})        # unregistered there
+        ops.append({"k": "decrypt", "key": name, "alg": alg, "enc": enc, "tok": tname, "via": "key"})                          # nor in a registry built from a list
+    for tname in [t for t in spec["tokens"] if t.startswith("jws-tenant:")]:
+        _, name, alg = tname.split(":")
+        pub = name if spec["keys"][name]["jwk"]["kty"] == "oct" else name + ".pub"
+        ops.append({"k": "verify-reg", "key": pub, "tok": tname, "reg": "jws-tenant"})
+        ops.append({"k": "verify-reg", "key": pub, "tok": tname, "reg": "jws-all"})
+        ops.append({"k": "verify-reg", "key": pub, "tok": f"jws:{name}:{alg}", "reg": "jws-tenant"})   # required parameter missing
     ops.append({"k": "keyset", "keys": ["ec", "ed", "rsa"]})
     ops.append({"k": "keyset", "keys": ["hs", "ec.pub", "x"]})
     ops.append({"k": "keyset-export", "keys": ["ec", "ed448", "rsa.pub"]})
@@ -264,6 +284,9 @@ def exec_op(w: World, o: dict):
                 r = j.jws.deserialize_compact(t, kk, algorithms=al)
             else:
                 r = j.jws.deserialize_json(copy.deepcopy(t), kk, algorithms=al)
+            return ("ok", r.payload.hex())
+        if k == "verify-reg":
+            r = j.jws.deserialize_compact(w.spec["tokens"][o["tok"]], key, registry=w.reg[o["reg"]])
             return ("ok", r.payload.hex())
         if k == "sign-shared-set":
             payload = b"c20 shared set " + o["alg"].encode()
@@ -447,11 +470,20 @@ def expected_view(w: World, name):
 def isolation_baseline(ctx, spec, ops):
     """every operation on its own fresh world"""
     base = {}
+    fp = FP.registries()
     for i, o in enumerate(ops):
         w = World(spec, keys_needed(o))
         out = exec_op(w, o)
         base[canon(o)] = outcome_class(out)
         ctx.count("isolation_runs")
+        # one call on objects of its own must leave the library's long-lived objects (registries, algorithm models, class-level tables) alone
+        if i % 4 == 0 or "reg" in o or i == len(ops) - 1:
+            fp2 = FP.registries()
+            ctx.count("fingerprints_compared")
+            if fp2 != fp:
+                ctx.violation("isolated-call-changes-library-state", f"after {o} (or one of the three calls before it), each run on fresh objects of its own, "
+                              f"the library's shared state differs in {FP.diff(fp, fp2)}", {"mode": "isolation", "op": o, "changed": FP.diff(fp, fp2)})
+                fp = fp2
         if out[0] == "harness-error":
             from ..core import Inconclusive
             raise Inconclusive(f"harness error in isolation run of {o}: {out}")
@@ -468,11 +500,32 @@ core.load_joserfc()
 from jmon.props import c20
 from jmon.api import J
 J.register_drafts()
+import os
 d = json.load(open(sys.argv[1]))
 out = []
 for o in d["ops"]:
-    w = c20.World(d["spec"])
-    out.append(list(c20.outcome_class(c20.exec_op(w, o))))
+    # every operation in a forked process of its own: nothing an earlier operation did can be seen
+    r, w_ = os.pipe()
+    pid = os.fork()
+    if pid == 0:
+        os.close(r)
+        try:
+            w = c20.World(d["spec"], c20.keys_needed(o))
+            res = list(c20.outcome_class(c20.exec_op(w, o)))
+        except BaseException as e:
+            res = ["child-error", type(e).__name__]
+        os.write(w_, json.dumps(res).encode())
+        os._exit(0)
+    os.close(w_)
+    buf = b""
+    while True:
+        chunk = os.read(r, 65536)
+        if not chunk:
+            break
+        buf += chunk
+    os.close(r)
+    os.waitpid(pid, 0)
+    out.append(json.loads(buf.decode()) if buf else ["child-died"])
 print(json.dumps(out))
 '''
 
@@ -488,7 +541,7 @@ def fresh_interpreter_baseline(ctx, spec, ops, base):
         env = dict(os.environ)
         env["PYTHONHASHSEED"] = "0"
         try:
-            r = subprocess.run([sys.executable, s, p, VERIF, SRC], capture_output=True, text=True, timeout=120, env=env)
+            r = subprocess.run([sys.executable, s, p, VERIF, SRC], capture_output=True, text=True, timeout=300, env=env)
         except subprocess.TimeoutExpired:
             ctx.note("fresh-interpreter baseline timed out")
             return
@@ -713,7 +766,7 @@ def run_shard(ctx):
     base = isolation_baseline(ctx, spec, ops)
     ctx.extra["operation_kinds"] = len(ops)
     if ctx.shard == 0:
-        fresh_interpreter_baseline(ctx, spec, rng.sample(ops, 12 if ctx.tier == "quick" else 100), base)
+        fresh_interpreter_baseline(ctx, spec, ops, base)   # every operation, each in a forked process of its own
     sh = ctx.shard
     quick = ctx.tier == "quick"
     total = ctx.budget_s
